@@ -437,7 +437,7 @@ def correspond(ctx):
     dis = run_corpus(ctx)
     dis += irq_numbers(ctx)
     ctx.jobs = jobs(ctx.tier)
-    limit = 600 if ctx.tier == "quick" else 3000      # against hangs, far above the normal time
+    limit = 1800 if ctx.tier == "quick" else 6000     # against hangs, far above the normal time (loaded machine)
     d2, bad = run_jobs(ctx, [timed(j, limit) for j in ctx.jobs])
     signal.alarm(0)
     # every mode-A instance terminates with the complete reachable product on the unchanged tree; an exploration
